@@ -322,7 +322,7 @@ func TestHaltingHistories(t *testing.T) {
 }
 
 func TestReplay(t *testing.T) {
-	if ev.ReplayPath() == "" || ev.ReplayPart() == "polling-sessions" {
+	if ev.ReplayPath() == "" || ev.ReplayPart() == "polling-sessions" || ev.ReplayPart() == "mid-cycle-root-loss" {
 		t.Skip()
 	}
 	var c Case
